@@ -69,6 +69,13 @@ def check(prop, tier):
     t_start = time.time()
     B = batch.run_batch(prop, tier)
     mod = B['mod']
+    # the master itself only executes cases (shrinking, regression replays) in forked children, from the tree under test
+    core.bootstrap()
+    if hasattr(mod, 'worker_init'):
+        mod.worker_init()
+    import gc
+    gc.collect()
+    gc.freeze()
     results = B['results']
     known = load_known()
     exit_code = 0
@@ -92,6 +99,23 @@ def check(prop, tier):
     if not results:
         lines.append(f'HARNESS-ERROR property={prop} no cases were executed')
         exit_code = 2
+
+    # regression cases: shrunk replays of defects that were repaired (known_findings.json -> fixed); none may reproduce
+    import glob
+    regress = sorted(glob.glob(os.path.join(core.VERIF, 'regressions', f'{prop}-*.json')))
+    nregress = 0
+    for path in regress:
+        rec = json.load(open(path))
+        res = isolate.run_isolated(mod.run_case, rec['case'], timeout=getattr(mod, 'CASE_TIMEOUT', 60.0) * 2)
+        nregress += 1
+        if res.get('verdict') == 'harness':
+            lines.append(f'HARNESS-ERROR property={prop} regression {path}: {res.get("vclass")}: {str(res.get("detail"))[-300:]}')
+            exit_code = 2
+        elif res.get('verdict') == 'violation' and not known_match(mod, res, known):
+            lines.append(f'VIOLATION property={prop} replay={path}')
+            lines.append(f'  class={res.get("vclass")} a repaired defect is back ({rec.get("regression_for", {}).get("fix_commit")}): {str(res.get("detail"))[:400]}')
+            exit_code = exit_code or 1
+    B['nregress'] = nregress
 
     viol = [r for r in results if r.get('verdict') == 'violation']
     known_hits = collections.Counter()
@@ -183,6 +207,7 @@ def write_evidence(mod, B, tier, ndup, detbad, nviol, known_hits, t_start):
         verdicts=dict(verdicts),
         determinism_selfcheck=dict(cases_rerun_in_other_interpreter_and_hashseed=ndup, mismatches=len(detbad)),
         known_finding_hits=dict(known_hits),
+        regression_replays_of_repaired_defects=B.get('nregress', 0),
         cases_requested=B['count'],
         workers=B['nworkers'],
         stopped_early_by_wall_cap=bool(B['stopped']),
